@@ -408,7 +408,7 @@ def c13_bounded(tier, seed):
         br.bound = "x64 AT&T: a patch with a temporary label assembled 1..5 times with distinct suffixes; every split of 9 programs (<= 6 lines; labels in the middle, at the very start, stacked, before data, in a second section) into chunks at line boundaries"
         br.clauses = ["C13/repeated-patch-never-yields-two-symbols-with-one-name", "C13/no-copy-captures-another-copys-label",
                       "C13/chunked-assembly-equals-whole-assembly", "C13/chunked-assembly-equals-whole-assembly/boundary-inside-a-non-text-section",
-                      "C13/existing-name-binds-to-the-module-symbol-object"]
+                      "C13/existing-name-binds-to-the-module-symbol-object", "C13/defining-an-existing-name-is-refused-across-patches-of-one-rewrite"]
         isa, ff, syntax, cs = ISAS["x64-att"]
         patch = "jmp .Lskip\nnop\n.Lskip:\nnop"
         for n in range(1, 6):
@@ -514,7 +514,45 @@ def c13_bounded(tier, seed):
                                         "detail": "expressions bind to %s; new symbols %s" % ([("module object" if e.symbol is tmod else e.symbol.name) for e in exprs], [s_.name for s_ in res.symbols])})
             except Exception as e:
                 br.failures.append({"clause": "C13/existing-name-binds-to-the-module-symbol-object", "witness": desc, "detail": "%s: %s" % (type(e).__name__, str(e)[:100])})
-        br.nontrivial = len(distinct) + 8
+        # several patches in ONE RewritingContext.apply(): a global label defined by an earlier patch is a module symbol for every later
+        # patch (references bind to that object; defining it again is refused), whatever was looked up before it existed
+        from gtirb_rewriting import RewritingContext as _RC, Patch as _Patch, patch_constraints as _pc
+        from gtirb_rewriting.assembler import MultipleDefinitionsError as _MDE
+        from gtirb_test_helpers import add_edge as _add_edge, add_proxy_block as _add_proxy
+
+        def _mk(txt):
+            @_pc()
+            def p_(c):
+                return txt
+            return _Patch.from_function(p_)
+        for second, expect in (("jmp glob", "binds"), ("glob:\nnop", "refused"), ("leaq glob(%rip), %rax", "binds")):
+            for first_refs_unknown in (False, True):
+                ir, m = create_test_module(gtirb.Module.FileFormat.ELF, gtirb.Module.ISA.X64)
+                _, tbi = add_text_section(m, address=0x1000)
+                b0, b1 = add_code_block(tbi, b"\x90\x90"), add_code_block(tbi, b"\x90\xc3")
+                _add_edge(ir.cfg, b0, b1, gtirb.EdgeType.Fallthrough)
+                _add_edge(ir.cfg, b1, _add_proxy(m), gtirb.EdgeType.Return)
+                rc = _RC(m, [])
+                rc.insert_at(b0, 1, _mk("nop\nglob:\nnop"))
+                rc.insert_at(b1, 1, _mk(second))
+                br.cases += 1
+                desc = {"first patch (lower address)": ["nop", "glob:", "nop"], "second patch": second.splitlines()}
+                try:
+                    rc.apply()
+                    outcome = "applied"
+                except _MDE:
+                    outcome = "MultipleDefinitionsError"
+                except Exception as e:      # noqa
+                    outcome = "%s: %s" % (type(e).__name__, str(e)[:80])
+                globs = [s_ for s_ in m.symbols if s_.name == "glob"]
+                if expect == "refused":
+                    if outcome != "MultipleDefinitionsError":
+                        br.failures.append({"clause": "C13/defining-an-existing-name-is-refused-across-patches-of-one-rewrite", "witness": desc, "detail": "%s; %d symbols named glob" % (outcome, len(globs))})
+                else:
+                    uses = [e for i_ in m.byte_intervals for e in i_.symbolic_expressions.values() if getattr(e, "symbol", None) is not None and e.symbol.name == "glob"]
+                    if outcome != "applied" or len(globs) != 1 or not uses or not all(e.symbol is globs[0] for e in uses):
+                        br.failures.append({"clause": "C13/existing-name-binds-to-the-module-symbol-object", "witness": desc, "detail": "%s; %d symbols named glob; %d uses" % (outcome, len(globs), len(uses))})
+        br.nontrivial = len(distinct) + 14
         br.samples = [{"patch": patch.splitlines()}]
         return br
     return run
